@@ -8,6 +8,7 @@ searches for k pairwise-distinct prime boxes (primality encoded on Int endpoints
 that cover F and whose set differs from every returned cover -> must be unsat.
 Termination "without error": any exception is a violation.
 """
+import itertools
 import time
 
 from vlib import core
@@ -258,6 +259,32 @@ def replay(payload):
     return False, 'enumeration is complete on this instance'
 
 
+# two five-variable functions whose enumeration branches in nested nodes (delivered with a seeded change that only such
+# instances expose); every coordinate permutation gives another branching order
+_NESTED = [
+    [(0, 0, 0, 0, 0), (0, 0, 0, 1, 0), (0, 0, 1, 0, 0), (0, 0, 1, 1, 0), (0, 1, 0, 1, 0), (0, 1, 0, 1, 1), (0, 1, 1, 0, 0),
+     (0, 1, 1, 0, 1), (0, 1, 1, 1, 0), (0, 1, 1, 1, 1), (1, 0, 0, 0, 0), (1, 0, 0, 0, 1), (1, 0, 0, 1, 0), (1, 0, 0, 1, 1),
+     (1, 0, 1, 0, 0), (1, 0, 1, 0, 1), (1, 1, 0, 0, 1), (1, 1, 0, 1, 1), (1, 1, 1, 0, 1), (1, 1, 1, 1, 1)],
+    [(0, 0, 0, 0, 1), (0, 0, 0, 1, 0), (0, 0, 1, 0, 0), (0, 0, 1, 0, 1), (0, 0, 1, 1, 0), (0, 0, 1, 1, 1), (0, 1, 0, 0, 0),
+     (0, 1, 0, 0, 1), (0, 1, 0, 1, 0), (0, 1, 0, 1, 1), (0, 1, 1, 0, 0), (0, 1, 1, 1, 0), (0, 1, 1, 1, 1), (1, 0, 0, 0, 0),
+     (1, 0, 0, 0, 1), (1, 0, 0, 1, 0), (1, 0, 0, 1, 1), (1, 0, 1, 0, 0), (1, 0, 1, 0, 1), (1, 1, 0, 0, 1), (1, 1, 0, 1, 0),
+     (1, 1, 0, 1, 1), (1, 1, 1, 0, 0), (1, 1, 1, 0, 1), (1, 1, 1, 1, 1)],
+]
+
+
+def nested_instances(step):
+    pts = list(itertools.product([0, 1], repeat=5))          # order of coverlib.domain for five 0..1 variables
+    idx = {p_: i for i, p_ in enumerate(pts)}
+    out = []
+    for S in _NESTED:
+        for perm in list(itertools.permutations(range(5)))[::step]:
+            m = 0
+            for p_ in S:
+                m |= 1 << idx[tuple(p_[perm[i]] for i in range(5))]
+            out.append(c09.instance('mask', 'b5', (m, None)))
+    return out
+
+
 def run(tier, seed, t0, only=None):
     insts = c09.instances_for(tier, seed + 1)
     five = [i for i in insts if i['decl'] == 'b5']
@@ -265,9 +292,9 @@ def run(tier, seed, t0, only=None):
     grid64 = [i for i in insts if i['kind'] == 'mask' and i['decl'] in ('g333', 'm')]
     insts = [i for i in insts if not (i['kind'] == 'mask' and i['decl'] in ('g333', 'm'))]
     if tier == 'quick':
-        insts = insts[::2] + five[:200] + grid64
+        insts = insts[::2] + five[:200] + grid64 + nested_instances(4)
     else:
-        insts = insts + five[:4000] + grid64
+        insts = insts + five[:4000] + grid64 + nested_instances(1)
     size = 30 if tier == 'quick' else 200
     tasks = []
     for i in range(0, len(insts), size):
